@@ -256,12 +256,17 @@ def canonicalPush (o : POp) : Bool :=
   else if v == 0x4e && n ≤ 0xffff then false
   else true
 
-/-- `bytes.Contains(hay, needle)` -/
+/-- `bytes.Contains(hay, needle)` (what go-bt's cleanup tested before fix F-C06-04; kept for the counterexample) -/
 def containsBytes (hay needle : Bytes) : Bool :=
   (List.range (hay.length + 1)).any fun i => needle.isPrefixOf (hay.drop i)
 
-/-- removeOpcodeByData -/
+/-- removeOpcodeByData: the script minus every canonical push of exactly `data` — the node's FindAndDelete of the
+    signature push.  (A push that merely *contains* the signature stays: it is not the signature.) -/
 def removeOpcodeByData (ops : List POp) (data : Bytes) : List POp :=
+  ops.filter fun o => !(o.op.toNat ≤ 0x4e && canonicalPush o && o.data == data)
+
+/-- the pre-fix cleanup (containment instead of equality, any opcode) -/
+def removeOpcodeContaining (ops : List POp) (data : Bytes) : List POp :=
   ops.filter fun o => !canonicalPush o || !containsBytes o.data data
 
 def removeOpcode (ops : List POp) (b : UInt8) : List POp := ops.filter (·.op != b)
@@ -821,7 +826,8 @@ def prepare (H : Crypto) (flags : Nat) (ctx : Option Ctx) (unlock lock : Bytes) 
       | .error _ => .inl "ErrMalformedPush"
       | .ok lops =>
         if hasFlag env.flags fSigPushOnly && !isPushOnly uops then .inl "ErrNotPushOnly"
-        else if hasFlag env.flags fBip16 && isP2SH lock && !isPushOnly uops then .inl "ErrNotPushOnly"
+        -- pay-to-script-hash exists before Genesis only: afterwards such an output is an ordinary hash puzzle
+        else if hasFlag env.flags fBip16 && !env.cfg.afterGenesis && isP2SH lock && !isPushOnly uops then .inl "ErrNotPushOnly"
         else .inr { env := env, unlock := uops, lock := lops, unlockEmpty := unlock.isEmpty,
                     bip16 := hasFlag env.flags fBip16 && isP2SH lock }
 
